@@ -236,6 +236,32 @@ func mergeBlock(m *ast.Block, acc ast.Block) {
 	m.Checks = append(m.Checks, acc.Checks...)
 }
 
+// pickModel decides which of the two legitimate semantics of a re-used builder a library follows:
+// a second Build returns everything put in so far (cum) or what was put in since the previous
+// Build (since, a builder that starts over). The block is decoded independently; the model that
+// matches is returned (cum when neither does, so that the mismatch is reported against it).
+func (s *c08State) pickModel(b *biscuit.Biscuit, cum, since ast.Block) ast.Block {
+	ser, err := b.Serialize()
+	if err != nil {
+		return cum
+	}
+	d, err := wire.DecodeToken(ser)
+	if err != nil || len(d.Blocks) == 0 {
+		return cum
+	}
+	got := d.Blocks[len(d.Blocks)-1]
+	gf, gr, gc := got.SortedKeys()
+	same := func(m ast.Block) bool {
+		wf, wr, wc := m.SortedKeys()
+		return cmpSorted(gf, wf) && cmpSorted(gr, wr) && cmpSorted(gc, wc)
+	}
+	if !same(cum) && same(since) {
+		s.c.Count("builder_starts_over_after_build", 1)
+		return since
+	}
+	return cum
+}
+
 // c08BuilderReuse is the third history template: builders keep being used after Build.
 // (1) a root Builder: fill, Build -> T1, fill more, Build -> T2, ...: every token holds exactly
 // what had been put into the builder when it was built, and filling the builder afterwards
@@ -247,7 +273,7 @@ func c08BuilderReuse(s *c08State, mk func() ast.Block) {
 	c, f, r := s.c, s.f, s.c.R
 	root := f.Tokens[0]
 	bld := biscuit.NewBuilder(root.T.Priv, biscuit.WithRNG(f.rng))
-	var m ast.Block
+	var m, since ast.Block
 	for k, n := 0, 2+r.Intn(2); k < n; k++ {
 		content := mk()
 		if k > 0 {
@@ -266,6 +292,7 @@ func c08BuilderReuse(s *c08State, mk func() ast.Block) {
 			c.Violate("add-refused", err.Error(), s.wit(nil))
 		}
 		mergeBlock(&m, acc)
+		mergeBlock(&since, acc)
 		op := fmt.Sprintf("add(root builder, %s)", content.Key())
 		s.log(op)
 		s.reobserve(op)
@@ -279,7 +306,8 @@ func c08BuilderReuse(s *c08State, mk func() ast.Block) {
 			s.log(fmt.Sprintf("build number %d on the root builder refused: %v", k+1, err))
 			break
 		}
-		l := &Live{T: &lib.Token{B: b, Blocks: []ast.Block{cloneBlock(m)}, Pub: root.T.Pub, Priv: root.T.Priv}, Origin: "build"}
+		l := &Live{T: &lib.Token{B: b, Blocks: []ast.Block{s.pickModel(b, cloneBlock(m), cloneBlock(since))}, Pub: root.T.Pub, Priv: root.T.Priv}, Origin: "build"}
+		since = ast.Block{}
 		f.Tokens = append(f.Tokens, l)
 		op = fmt.Sprintf("build number %d on the root builder -> #%d", k+1, len(f.Tokens)-1)
 		s.log(op)
@@ -301,7 +329,7 @@ func c08BuilderReuse(s *c08State, mk func() ast.Block) {
 		c.Violate("createblock-panic/"+pi.Site, pi.Msg, s.wit(nil))
 		return
 	}
-	var bm ast.Block
+	var bm, bsince ast.Block
 	built := []*c08Builder{}
 	for k, n := 0, 2+r.Intn(2); k < n; k++ {
 		content := s.freshContent(200 + k)
@@ -318,6 +346,7 @@ func c08BuilderReuse(s *c08State, mk func() ast.Block) {
 			c.Violate("add-refused", err.Error(), s.wit(nil))
 		}
 		mergeBlock(&bm, acc)
+		mergeBlock(&bsince, acc)
 		op := fmt.Sprintf("add(block builder on #%d, %s)", ti, content.Key())
 		s.log(op)
 		s.reobserve(op)
@@ -326,7 +355,12 @@ func c08BuilderReuse(s *c08State, mk func() ast.Block) {
 			c.Violate("buildblock-panic/"+pi.Site, fmt.Sprintf("Build number %d on one block builder: %s", k+1, pi.Msg), s.wit(nil))
 			return
 		}
-		nb := &c08Builder{parent: ti, model: cloneBlock(bm), built: blk, id: len(s.builders)}
+		model := cloneBlock(bm)
+		if tb, err := f.Tokens[ti].T.B.Append(s.scratch, blk); err == nil {
+			model = s.pickModel(tb, model, cloneBlock(bsince))
+		}
+		bsince = ast.Block{}
+		nb := &c08Builder{parent: ti, model: model, built: blk, id: len(s.builders)}
 		s.builders = append(s.builders, nb)
 		built = append(built, nb)
 		op = fmt.Sprintf("build-block number %d on the block builder -> built block %d", k+1, nb.id)
@@ -579,7 +613,7 @@ func init() {
 	core.Register(&core.Prop{
 		ID:    "C08",
 		Level: "exploration",
-		Rule: "three history templates. Cases = 2 mod 4: builder re-use - a root Builder is filled, built, filled further (fresh symbols) and built again 2-3 times, and a block builder on a live token (with and without custom symbols) likewise; every token / block must hold exactly what had been put into its builder at the time of its Build, nothing added later may reach a token or block already built, and Build may refuse with an error but not panic. Odd cases: chain-and-fork - a chain of attenuations of depth 2-9 from one root (tips occasionally re-loaded), with 2-3 siblings (appends with fresh symbols, sometimes a seal) forked from the same tip at several depths, so that parents whose internal slices have spare capacity (3, 5, 6, 7, 9 blocks) are forked. Cases = 0 mod 4: one seeded history of 14-45 operations over a growing family (<=10 live tokens) drawn from {create-block, add-to-builder, build-block, append, seal, serialize+unmarshal, get-block-id with unknown symbols, authorize+print}, biased to the dangerous shape (several builders open on one parent at once, interleaved adds that intern different new symbols, building in the opposite order to creation, siblings appended from one parent). After EVERY operation EVERY live token is re-observed (String, Code, Serialize, Unmarshal(Serialize).String, RevocationIds, key id, panel behaviour) and compared with its creation snapshot; every new token is decoded by R3 and compared with what its own caller put in; every built-but-unappended block is observed through a throw-away append. " +
+		Rule: "three history templates. Cases = 2 mod 4: builder re-use - a root Builder is filled, built, filled further (fresh symbols) and built again 2-3 times, and a block builder on a live token (with and without custom symbols) likewise; every token / block must hold exactly what had been put into its builder at the time of its Build, nothing added later may reach a token or block already built, and Build may refuse with an error but not panic (a builder that starts over after Build - second result = what was added since - is accepted as well and counted). Odd cases: chain-and-fork - a chain of attenuations of depth 2-9 from one root (tips occasionally re-loaded), with 2-3 siblings (appends with fresh symbols, sometimes a seal) forked from the same tip at several depths, so that parents whose internal slices have spare capacity (3, 5, 6, 7, 9 blocks) are forked. Cases = 0 mod 4: one seeded history of 14-45 operations over a growing family (<=10 live tokens) drawn from {create-block, add-to-builder, build-block, append, seal, serialize+unmarshal, get-block-id with unknown symbols, authorize+print}, biased to the dangerous shape (several builders open on one parent at once, interleaved adds that intern different new symbols, building in the opposite order to creation, siblings appended from one parent). After EVERY operation EVERY live token is re-observed (String, Code, Serialize, Unmarshal(Serialize).String, RevocationIds, key id, panel behaviour) and compared with its creation snapshot; every new token is decoded by R3 and compared with what its own caller put in; every built-but-unappended block is observed through a throw-away append. " +
 			"Non-trivial = histories with >=2 builders on one parent that each interned content before either was observed (distinct by operation list).",
 		Assumptions: []string{"a built block is appended only to the token its builder was created from"},
 		NumCases: func(tier string) int {
